@@ -579,9 +579,10 @@ class HTTPWARCRecorderSession(BaseWARCRecorderSession):
         self._response_temp_file.write(data)
 
     def end_response(self, response: HTTPResponse):
-        payload_offset = len(response.to_bytes())
-
         self._response_record.block_file.seek(0)
+        payload_offset = self._find_payload_offset(
+            self._response_record.block_file)
+
         self._recorder.set_length_and_maybe_checksums(
             self._response_record,
             payload_offset=payload_offset
@@ -591,6 +592,26 @@ class HTTPWARCRecorderSession(BaseWARCRecorderSession):
             self._record_revisit(payload_offset)
 
         self._recorder.write_record(self._response_record)
+
+    @classmethod
+    def _find_payload_offset(cls, block_file) -> int:
+        '''Return the length of the HTTP header block as it was received.
+
+        The header block ends with the first empty line. The offset must
+        come from the recorded bytes and not from a serialization of the
+        parsed response since the server may use LF line endings, extra
+        whitespace, folded lines or trailers.
+        '''
+        offset = 0
+
+        with wpull.util.reset_file_offset(block_file):
+            for line in iter(block_file.readline, b''):
+                offset += len(line)
+
+                if line in (b'\r\n', b'\n'):
+                    break
+
+        return offset
 
     def _record_revisit(self, payload_offset: int):
         '''Record the revisit if possible.'''
